@@ -180,15 +180,17 @@ func (h *Hook) updateClient(cl *mqtt.Client) {
 		Clean:           cl.Properties.Clean,
 		ProtocolVersion: cl.Properties.ProtocolVersion,
 		Properties: storage.ClientProperties{
-			SessionExpiryInterval: props.SessionExpiryInterval,
-			AuthenticationMethod:  props.AuthenticationMethod,
-			AuthenticationData:    props.AuthenticationData,
-			RequestProblemInfo:    props.RequestProblemInfo,
-			RequestResponseInfo:   props.RequestResponseInfo,
-			ReceiveMaximum:        props.ReceiveMaximum,
-			TopicAliasMaximum:     props.TopicAliasMaximum,
-			User:                  props.User,
-			MaximumPacketSize:     props.MaximumPacketSize,
+			SessionExpiryInterval:     props.SessionExpiryInterval,
+			SessionExpiryIntervalFlag: props.SessionExpiryIntervalFlag,
+			AuthenticationMethod:      props.AuthenticationMethod,
+			AuthenticationData:        props.AuthenticationData,
+			RequestProblemInfo:        props.RequestProblemInfo,
+			RequestProblemInfoFlag:    props.RequestProblemInfoFlag,
+			RequestResponseInfo:       props.RequestResponseInfo,
+			ReceiveMaximum:            props.ReceiveMaximum,
+			TopicAliasMaximum:         props.TopicAliasMaximum,
+			User:                      props.User,
+			MaximumPacketSize:         props.MaximumPacketSize,
 		},
 		Will: storage.ClientWill(cl.Properties.Will),
 	}
